@@ -32,6 +32,7 @@ def _mk_header(f):
     return h, conf
 
 
+ISO = C.Isolation()
 FIELDS = ("pdu_type", "direction", "mode", "crc", "large", "data_len", "segctrl", "segmeta", "idw", "seqw", "src", "seq", "dst")
 
 
@@ -70,6 +71,8 @@ def k_hdr(ctx, **f):
         ok, rp = attempt(u.pack)
         ctx.check("hdr.roundtrip", ok and bytes(rp) == want, "repack", "", case)
         ctx.check("hdr.roundtrip", u == h, "eq", "", case)
+        ISO.remember(u, want, "header")
+        ISO.recheck(ctx, "hdr.decoded_objects_independent", case)
 
 
 def _diff_region(a, b, f):
